@@ -718,6 +718,8 @@ main(int argc, char ** argv)
 	first = strtoull(argv[2], NULL, 0);
 	count = strtoull(argv[3], NULL, 0);
 	setvbuf(stdout, NULL, _IOFBF, 1 << 16);
+	/* a process may run with stdin closed: descriptor 0 is then an ordinary descriptor */
+	close(0);
 	for (i = first; i < first + count; i++) {
 		program(seed, i);
 		fflush(stdout);
